@@ -4,13 +4,16 @@
     PARTIAL: proved -- decoding any payload never panics and never yields more entries than the list
     capacity; an accepted list has at most 63 satellites and at most 31 recognised entries per satellite
     and fits the list capacity (so no count field can wrap); the SSR signal tables are one-to-one with ids
-    that fit 5 bits.  Not proved: that the decoded list is exactly the accepted multiset grouped by ascending
-    satellite (needs the sequential composition of the bit-field round trip); covered by the ROUNDTRIP
-    correspondence and the impl-side probes. *)
+    that fit 5 bits; and for 1059 and 1065 ([C16_roundtrip_1059/1065], Proofs/BiasRoundTrip.v): whatever
+    list the encoder accepts, with every quantised bias inside its 14-bit field (|bias| <= 81.91 m; beyond it
+    the field wraps), decodes to exactly its recognised entries, each once, grouped by ascending satellite,
+    in list order within a satellite, with the signal unchanged and the bias on its 0.01 m grid.
+    Not proved: the same for 1230 (four entries in mask order: needs the sort) and the frame wrapper;
+    covered by the ROUNDTRIP correspondence and the impl-side probes. *)
 From Coq Require Import ZArith List Lia Bool.
 From RtcmModel Require Import Types BitIO SigId Bias Layout Top.
 From RtcmGen Require Import GenSignals GenLayouts.
-From RtcmProofs Require Import ListZ SigProofs BiasProofs.
+From RtcmProofs Require Import ListZ SigProofs BiasProofs BitProofs BiasRoundTrip.
 Import ListNotations.
 Open Scope Z_scope.
 
@@ -46,6 +49,28 @@ Theorem C16_counts_fit_1065 : forall st l es st',
     forall s, 0 <= s <= 31 -> Z.testbit sat_mask s = true -> cb_count ssr_table_1065 s es <= 31.
 Proof. intros st l es st' H He. cbn [t_encode_frag encode_frag] in H. eapply cb_encode_counts_fit; try eassumption. lia. Qed.
 
+(** what the encoder accepts, the decoder returns: with [mask] the set of satellites that occur in the list,
+    the decoded list is, for t = 0, 1, 2, .. in this order, the recognised entries of satellite t in list order,
+    each with its bias replaced by dequant (quant bias) -- nothing dropped, nothing duplicated *)
+Theorem C16_roundtrip_1059 : forall d o l es d' o', bytes_ok d = true -> 0 <= o ->
+  entries_of_vals l = Some es -> Forall (fun e => 0 <= be_sat e) es -> Forall in14 (filter (recog ssr_table_1059) es) ->
+  t_encode_frag FBias1059 (d, o) (VList l) = Ok (d', o') ->
+  exists mask, (forall t, 0 <= t -> Z.testbit mask t = existsb (fun e => be_sat e =? t) es) /\
+    t_decode_frag FBias1059 d' o = Ok (VList (map val_of_entry (grouped ssr_table_1059 64 0 mask es)), o').
+Proof.
+  intros d o l es d' o' Hb Ho He Hn Hi H. cbn [t_encode_frag encode_frag] in H. cbn [t_decode_frag decode_frag].
+  exact (cb_encode_decodes ssr_table_1059 (proj1 C16_ssr_tables_ok) SAT_CAP_1059 6 ltac:(lia) 63 ltac:(lia) ltac:(vm_compute; discriminate) d o l es d' o' Hb Ho He Hn Hi H).
+Qed.
+Theorem C16_roundtrip_1065 : forall d o l es d' o', bytes_ok d = true -> 0 <= o ->
+  entries_of_vals l = Some es -> Forall (fun e => 0 <= be_sat e) es -> Forall in14 (filter (recog ssr_table_1065) es) ->
+  t_encode_frag FBias1065 (d, o) (VList l) = Ok (d', o') ->
+  exists mask, (forall t, 0 <= t -> Z.testbit mask t = existsb (fun e => be_sat e =? t) es) /\
+    t_decode_frag FBias1065 d' o = Ok (VList (map val_of_entry (grouped ssr_table_1065 32 0 mask es)), o').
+Proof.
+  intros d o l es d' o' Hb Ho He Hn Hi H. cbn [t_encode_frag encode_frag] in H. cbn [t_decode_frag decode_frag].
+  exact (cb_encode_decodes ssr_table_1065 (proj2 C16_ssr_tables_ok) SAT_CAP_1065 5 ltac:(lia) 31 ltac:(lia) ltac:(vm_compute; discriminate) d o l es d' o' Hb Ho He Hn Hi H).
+Qed.
+
 (** non-vacuity: 40 entries on one satellite are refused (the D7 witness), 31 are accepted *)
 Definition entries (n : nat) : list val := map (fun i => VStruct [VInt 7; VSig 1 67; VF32 0]) (seq 0 n).
 Example C16_example : is_ok (t_encode_frag FBias1059 (repeat 0 200, 0) (VList (entries 40))) = false /\
@@ -55,3 +80,5 @@ Proof. split; vm_compute; reflexivity. Qed.
 Print Assumptions C16_decode_bounded.
 Print Assumptions C16_decode_no_panic.
 Print Assumptions C16_counts_fit_1059.
+Print Assumptions C16_roundtrip_1059.
+Print Assumptions C16_roundtrip_1065.
